@@ -136,6 +136,14 @@ def random_line(rng: random.Random, maxlen: int = 60) -> bytes:
     return bytes(rng.choice(alphabet) for _ in range(n)).replace(b"\n", b"") + b"\r\n"
 
 
+def gopher_expressible(selector: bytes) -> bool:
+    """False for a selector the Gopher family cannot name: the request line is decoded as UTF-8 (surrogateescape) and
+    every TAB-separated field is trimmed of white space (str.strip) before it is looked at, which the properties
+    state as given (C05: 'Gopher family: ... no trailing blank'; C06: '... which Gopher request parsing strips')."""
+    text = selector.decode("utf-8", "surrogateescape")
+    return text.strip() == text and not any(c in text for c in "\t\r\n")
+
+
 def gopher_ambiguous(selector: bytes) -> bool:
     """A Gopher selector whose bytes also have the documented shape of a request of a
     protocol listed earlier (Spartan: host, absolute path, digits, blank-separated;
